@@ -420,9 +420,10 @@ static int exec_line(const char *line) {
         result(m_mod_src_register_path(m, &pt, fl, (void *)(intptr_t)idnum(t[4]))); return -1;
     }
     if ((!strcmp(t[0], "reg_thr") && n == 6) || (!strcmp(t[0], "dereg_thr") && n == 4)) {
-        /* thresholds far out of reach: 10^12 ms of inactivity, 10^9 actions per ms */
+        /* thresholds out of reach: 10^13 ms of inactivity (a module that never acted counts as inactive since the epoch);
+         * activity thresholds are not used by the generator: the library divides by the module's age in ms, which can be 0 */
         NEEDH(1, m);
-        m_src_thresh_t th = { (uint64_t)atoi(t[2]) * 1000000000000ULL, (double)atoi(t[3]) * 1e9 };
+        m_src_thresh_t th = { (uint64_t)atoi(t[2]) * 10000000000000ULL, (double)atoi(t[3]) * 1e9 };
         if (t[0][0] == 'd') { result(m_mod_src_deregister_thresh(m, &th)); return -1; }
         m_src_flags fl = prio_flags(t[4]); if (strchr(t[4], 'o')) fl |= M_SRC_ONESHOT;
         result(m_mod_src_register_thresh(m, &th, fl, (void *)(intptr_t)idnum(t[5]))); return -1;
@@ -516,7 +517,8 @@ static void run_script(const script_t *s) {
             continue;
         }
         if (__real_pipe(p) != 0) { FDR[k] = FDW[k] = -1; continue; }
-        FDR[k] = dup2(p[0], 200 + 32 * T->index_ + 2 * k); FDW[k] = dup2(p[1], 201 + 32 * T->index_ + 2 * k);
+        /* the last pipe of the pool is read through descriptor number 0 (a daemon that closed stdin: the boundary value) */
+        FDR[k] = dup2(p[0], (k == 5 && T->index_ == 0) ? 0 : 200 + 32 * T->index_ + 2 * k); FDW[k] = dup2(p[1], 201 + 32 * T->index_ + 2 * k);
         __real_close(p[0]); __real_close(p[1]);
         fcntl(FDR[k], F_SETFL, O_NONBLOCK); fcntl(FDW[k], F_SETFL, O_NONBLOCK);
     }
